@@ -582,6 +582,9 @@ func (in *Interp) call(t *recT, st *Step) (buf []byte) {
 		if b, ok := v.([]byte); ok {
 			buf = b
 		}
+		if b, ok := v.(json.RawMessage); ok {
+			buf = b
+		}
 		ms := jsonMatchers(st.Matchers)
 		switch {
 		case st.API == "json" && c != nil:
@@ -674,6 +677,8 @@ func goVals(v *Val) []any {
 			panic("unknown go value " + v.Name)
 		}
 		return []any{f()}
+	case "rawmsg":
+		return []any{json.RawMessage(unb64(v.B64))}
 	case "gojson":
 		// a marshalable Go value built from a JSON text (numbers kept as json.Number)
 		dec := json.NewDecoder(strings.NewReader(string(unb64(v.B64))))
